@@ -21,8 +21,23 @@
 //     modification (the text does not say which);
 //   - modifications and retries mixed: the text does not fix the priority; the
 //     result is one of the two kinds, no header is invented, and a resulting
-//     modification carries at least the later-wins union of the modifications
-//     after the last retry and at most the union of all of them.
+//     modification carries the later-wins union of ALL input modifications
+//     ("response modifications merge their header edits").  The code drops the
+//     modifications that precede a retry (known finding F-C07a): a hit whose
+//     input has a modification after a retry after a modification
+//     (retrySplitsMods = Coq retry_splits_mods) and whose observed edits are
+//     exactly the union of the modifications after the last retry gets the
+//     signature resp-edits-dropped-at-retry:RespPrioritize; anything else is
+//     resp-header-union.
+//
+// Header names are case-insensitive (HTTP): when two names of the input edits
+// differ only in case (caseClash = Coq case_clash) the union is demanded per
+// header - one entry per case-folded name, the later edit's value, either
+// spelling (an input map that itself names a header twice: any of its values,
+// or both entries).  The code keeps
+// both spellings (known finding F-C07b, signature
+// case-variant-conflict:MergeHeaders); a wrong value is header-union as usual.
+// Without such names the comparison is byte-exact as before.
 //
 // Encoding ("req-enc" / "resp-enc"): the variables produced by the resulting
 // action's own Req/RespToSpoeActions carry its kind, status, body and, when the
@@ -262,6 +277,7 @@ func checkReq(h *hitter, site string, v view) {
 	acts := h.k.Actions
 	firstEarly, allNoop := -1, true
 	union := map[string]string{}
+	var edits []map[string]string
 	for i, a := range acts {
 		if a.Kind != kNoop {
 			allNoop = false
@@ -270,6 +286,7 @@ func checkReq(h *hitter, site string, v view) {
 			firstEarly = i
 		}
 		if isMod(a.Kind) {
+			edits = append(edits, a.Headers)
 			for name, val := range a.Headers {
 				union[name] = val // input order: the later edit overwrites
 			}
@@ -312,11 +329,148 @@ func checkReq(h *hitter, site string, v view) {
 		case !isMod(v.Kind):
 			h.add("unknown-result:"+site, want, "result kind "+v.Kind)
 		default:
-			if ok, seen := headersAgree(v, union); !ok {
+			switch verdict, seen := unionVerdict(v, edits); verdict {
+			case "":
+			case sigCaseVariant:
+				h.add(sigCaseVariant, want+" - one entry per header, names being case-insensitive", seen)
+			default:
 				h.add("header-union:"+site, want, seen)
 			}
 		}
 	}
+}
+
+// ---------------------------------------------------------------- unions
+
+const (
+	sigCaseVariant  = "case-variant-conflict:MergeHeaders"
+	sigDroppedRetry = "resp-edits-dropped-at-retry:RespPrioritize"
+)
+
+// asciiLower folds A-Z (Coq lower_str): header names are ASCII tokens.
+func asciiLower(s string) string {
+	b := []byte(s)
+	for i, ch := range b {
+		if ch >= 'A' && ch <= 'Z' {
+			b[i] = ch + 32
+		}
+	}
+	return string(b)
+}
+
+// caseClash: two of the names differ only in case (Coq case_clash).
+func caseClash(names []string) bool {
+	spelling := map[string]string{}
+	for _, n := range names {
+		f := asciiLower(n)
+		if first, ok := spelling[f]; ok && first != n {
+			return true
+		}
+		spelling[f] = n
+	}
+	return false
+}
+
+// unionVerdict compares the header map seen at an observation point with the
+// later-wins union of the maps (input order).  "" = agrees; sigCaseVariant =
+// the result carries two spellings of a header whose last edit names it once;
+// "mismatch" otherwise.  Without names that differ only in case the comparison
+// is byte-exact.  With such names it is per header (case-folded name): the
+// value(s) of the header in the LAST map that mentions it, under any
+// spelling; a map that itself names the header twice conflicts with itself,
+// "later" is then undefined and any of its values (or both entries) is
+// accepted.
+func unionVerdict(v view, maps []map[string]string) (verdict, seen string) {
+	exact := map[string]string{}
+	var names []string
+	for _, m := range maps {
+		for n, val := range m {
+			exact[n] = val
+			names = append(names, n)
+		}
+	}
+	if !caseClash(names) {
+		if ok, seen := headersAgree(v, exact); !ok {
+			return "mismatch", seen
+		}
+		return "", ""
+	}
+	if !wfMap(exact) && v.DumpSeen {
+		return "", ""
+	}
+	if !v.HeadersOK {
+		return "mismatch", fmt.Sprintf("unreadable header dump %q", v.DumpRaw)
+	}
+	want := map[string][]string{} // header -> accepted values (of the last map that mentions it)
+	for _, m := range maps {
+		mine := map[string][]string{}
+		for n, val := range m {
+			mine[asciiLower(n)] = append(mine[asciiLower(n)], val)
+		}
+		for f, vals := range mine {
+			want[f] = vals
+		}
+	}
+	got := map[string][]string{}
+	for n, val := range v.Headers {
+		got[asciiLower(n)] = append(got[asciiLower(n)], val)
+	}
+	dup := false
+	for f, vals := range got {
+		acc, ok := want[f]
+		if !ok {
+			return "mismatch", showMap(v.Headers)
+		}
+		nFound := 0
+		for _, val := range vals {
+			for _, w := range acc {
+				if w == val {
+					nFound++
+					break
+				}
+			}
+		}
+		if nFound == 0 {
+			return "mismatch", showMap(v.Headers) // the header's last edit is not there at all
+		}
+		if nFound < len(vals) || (len(vals) > 1 && len(acc) == 1) {
+			dup = true // besides the last edit, an entry of the same header under another spelling
+		}
+	}
+	for f := range want {
+		if _, ok := got[f]; !ok {
+			return "mismatch", showMap(v.Headers)
+		}
+	}
+	if dup {
+		return sigCaseVariant, showMap(v.Headers)
+	}
+	return "", ""
+}
+
+// retrySplitsMods: some response modification comes after a retry that comes
+// after a response modification (Coq retry_splits_mods, the same scan).
+func retrySplitsMods(acts []Act) bool {
+	const (
+		sNone = iota
+		sMod
+		sLost
+	)
+	st := sNone
+	for _, a := range acts {
+		switch a.Kind {
+		case kModRes:
+			if st == sLost {
+				return true
+			}
+			st = sMod
+		case kRetry:
+			if st != sNone {
+				st = sLost
+			}
+		}
+	}
+	return false
 }
 
 func nonNilMap(m map[string]string) map[string]string {
@@ -355,14 +509,16 @@ func checkResp(h *hitter, site string, v view) {
 		h.add("unknown-result:"+site, "a modification or a retry", "result kind "+v.Kind)
 		return
 	}
-	allUnion, runUnion := map[string]string{}, map[string]string{}
+	var allMods, runMods []map[string]string
+	allUnion := map[string]string{}
 	for i, a := range acts {
 		if a.Kind == kModRes {
+			allMods = append(allMods, a.Headers)
+			if i > lastRetry {
+				runMods = append(runMods, a.Headers)
+			}
 			for name, val := range a.Headers {
 				allUnion[name] = val
-				if i > lastRetry {
-					runUnion[name] = val
-				}
 			}
 		}
 	}
@@ -381,35 +537,28 @@ func checkResp(h *hitter, site string, v view) {
 			h.add("resp-status-body:"+site, "status and body of one of the input response modifications",
 				fmt.Sprintf("status %d (present=%v) body %q (present=%v)", v.Status, v.HasStatus, v.Body, v.HasBody))
 		}
-		if len(retries) == 0 {
-			if ok, seen := headersAgree(v, allUnion); !ok {
-				h.add("resp-header-union:"+site,
-					"response modification with header edits "+showMap(allUnion), seen)
-			}
+		// the later-wins union of ALL response modifications, retries or not
+		want := "response modification with header edits " + showMap(allUnion)
+		verdict, seen := unionVerdict(v, allMods)
+		if verdict == "" {
 			return
 		}
-		// mixed with retries: between runUnion and allUnion
-		if !wfMap(allUnion) && v.DumpSeen {
-			return
-		}
-		if !v.HeadersOK {
-			h.add("resp-header-union:"+site, "a readable header dump", fmt.Sprintf("%q", v.DumpRaw))
-			return
-		}
-		for name, val := range runUnion {
-			if got, ok := v.Headers[name]; !ok || got != val {
-				h.add("resp-header-union:"+site, "at least the later-wins union of the modifications after the last retry "+
-					showMap(runUnion), showMap(v.Headers))
+		if retrySplitsMods(acts) {
+			// F-C07a: exactly what dropping everything before the last retry gives
+			switch v2, _ := unionVerdict(v, runMods); v2 {
+			case "":
+				h.add(sigDroppedRetry, want+" (the union of all response modifications of the sequence)",
+					seen+" = the union of the modifications after the last retry only")
 				return
+			case sigCaseVariant:
+				verdict = sigCaseVariant
 			}
 		}
-		for name, got := range v.Headers {
-			if val, ok := allUnion[name]; !ok || val != got {
-				h.add("resp-header-invented:"+site, "at most the later-wins union of all modifications "+
-					showMap(allUnion), showMap(v.Headers))
-				return
-			}
+		if verdict == sigCaseVariant {
+			h.add(sigCaseVariant, want+" - one entry per header, names being case-insensitive", seen)
+			return
 		}
+		h.add("resp-header-union:"+site, want, seen)
 		return
 	}
 	// a retry
